@@ -269,6 +269,25 @@ def instance_element(word, root='r'):
     return e
 
 
+def instance_element_noisy(word, root='r'):
+    """The same children with what is not an element information item between them: comments, processing instructions
+    and white space (the children sequence of the content model is unchanged)."""
+    from xml.etree.ElementTree import Element, SubElement, Comment, ProcessingInstruction
+    e = Element('{%s}%s' % (TNS, root))
+    e.text = '\n  '
+    c = Comment(' before ')
+    c.tail = ' '
+    e.append(c)
+    for i, s in enumerate(word):
+        ns, ln = SYMBOLS[s]
+        k = SubElement(e, '{%s}%s' % (ns, ln) if ns else ln)
+        k.tail = '\n\t'
+        x = Comment(f' c{i} ') if i % 2 == 0 else ProcessingInstruction('pi', f'n={i}')
+        x.tail = '  '
+        e.append(x)
+    return e
+
+
 def instance_text(word, root='r'):
     kids = ''
     for s in word:
